@@ -301,6 +301,9 @@ def run(ctx, rep_):
     value_functions_check_their_exit(F, rep_)
     fields_are_initialised(F, rep_)
     class_callable_only_from_module(F, rep_)
+    # `x[i]` on an accepted type is compiled to the access that fits the run-time kind of x (shared with C13)
+    from props import C13 as _c13
+    _c13.index_dispatch(F, rep_, rule="C02.index-dispatch")
     from props import _identity
     _identity.zip_lengths(F, rep_, "C02.zip-length")
     # the typing guards whose loss makes an accepted program fail with a dynamic type error (shared with C03 (c))
